@@ -1611,7 +1611,11 @@ class RulesMixin:
         try:
             return self.ev(cl.node, f2)
         except PyRaise as pr:
-            if isinstance(pr.exc.cls, type) and issubclass(pr.exc.cls, (NameError, AttributeError, KeyError, IndexError, TypeError)):
+            if isinstance(pr.exc.cls, type) and issubclass(pr.exc.cls, NameError):
+                # the clause names a local variable the function no longer has (renamed, removed):
+                # the contract does not apply to this code any more -- undecided, not a violation
+                raise Unsupported(f"loop clause {cl.name} refers to a local variable that the function no longer has ({pr})")
+            if isinstance(pr.exc.cls, type) and issubclass(pr.exc.cls, (AttributeError, KeyError, IndexError, TypeError)):
                 # the invariant speaks about something the code no longer has (a local that is
                 # gone, say): where it has to be proved it is not established; where it would
                 # be assumed nothing is assumed
